@@ -834,9 +834,17 @@ class Interp:
                 return self.call_body(cl[1], [self_arg] + list(tup[1]), depth + 1)
             if cl is not None and cl[0] == "fn" and cl[1] in self.f.bodies and tup is not None and tup[0] == "tuple":
                 return self.call_body(cl[1], list(tup[1]), depth + 1)
+            if cl is not None and cl[0] == "fn" and tup is not None and tup[0] == "tuple":
+                # a variant constructor / foreign function item handed over as a callback (`into_query(QueryKind::Flat)`)
+                r_ = self.apply(args[0], list(tup[1]), depth + 1)
+                if r_ is not None:
+                    return r_
         # --- accessor applied to opaque tokens only: nothing to learn by inlining, keep it symbolic
         dargs = [self.deref_val(a) for a in args]
-        if args and all(d is not None and d[0] == "tok" for d in dargs) and not ({res_path, path} & self.inline):
+        # (a module-private free function is an implementation detail of its callers - a helper a refactoring extracted: it is
+        # evaluated like them, also when everything it is given is opaque)
+        helper = any(p in self.f.bodies and self.f.bodies[p].kind == "fn" and re.match(r"restricted:\w", self.f.bodies[p].rec.get("vis") or "") for p in (res_path, path))
+        if args and all(d is not None and d[0] == "tok" for d in dargs) and not ({res_path, path} & self.inline) and not helper:
             # try the body first: a pure function of opaque arguments may still have a determined result
             # (e.g. a decision made by comparing the arguments); otherwise keep the application symbolic
             for p in (res_path, path):
@@ -963,6 +971,12 @@ class Interp:
                 if cl[1] in self.f.bodies:
                     return self.call_body(cl[1], argv, depth + 1)
                 short = cl[1].split("::")[-1]
+                if "::" in cl[1] and cl[1].rsplit("::", 1)[0] in self.f.adts:
+                    # the constructor of a crate-local tuple variant (`SelectorRes::Some` is not `Option::Some`)
+                    parent = cl[1].rsplit("::", 1)[0]
+                    vnames = [v["name"] for v in self.f.adts[parent]["variants"]]
+                    if short in vnames:
+                        return Adt(parent, vnames.index(short), {i: v for i, v in enumerate(argv)})
                 if short in ("Ok", "Some", "Err"):
                     return {"Ok": Ok, "Some": Some, "Err": Err}[short](argv[0])
                 if short in ("from", "into", "to_owned", "to_vec", "clone", "copied", "cloned") and len(argv) == 1:
